@@ -16,6 +16,7 @@ THEOREMS = [
     'CpProofs.C14.C14_torn_file',
     'CpProofs.C14.torn_prefix_benign',
     'CpProofs.C14.whole_file_loads',
+    'CpProofs.C14.toyPickle_contract',
     'CpProofs.C14.C14_expired_dead',
     'CpProofs.C14.request_dead',
     'CpProofs.C14.C14_no_resurrection',
